@@ -78,6 +78,8 @@ IGNORED_PARAMS = {'__exit__': {'exc_type', 'exc_value', 'traceback'}}
 CFG_TYPE = 'pcfg'          # record of the attributes read through self.<attr>
 EXTRA_PARAMS = ''          # binders in front of (c : CFG_TYPE) in every generated definition
 MONAD = 'MP'               # monad of the generated definitions
+RECEIVERS = {'self'}       # names whose method calls are calls of the translated methods
+PGM_METHODS = None         # set below: the PGMCompiler table, for groups that call the compiler's API through a receiver
 EXPR_HOOKS = []            # per-group expression translations tried first: hook(tr, node, env) -> (effects, term) | None
 STMT_SKIP = []             # per-group statements that are deliberately not modelled: hook(stmt) -> bool
 LOCAL_ELT = {}             # method -> {local list name: element type}: elements appended to it are coerced
@@ -154,8 +156,9 @@ class Env:
 
 
 class Tr:
-    def __init__(self, classdef: ast.ClassDef):
+    def __init__(self, classdef: ast.ClassDef, api_class: ast.ClassDef | None = None):
         self.defs = {n.name: n for n in classdef.body if isinstance(n, ast.FunctionDef)}
+        self.api_defs = {n.name: n for n in api_class.body if isinstance(n, ast.FunctionDef)} if api_class is not None else {}
 
     # ------------------------------------------------------------------ expressions
     # returns (effects, term); effects = list of (var, monadic term) to bind before the term is evaluated
@@ -368,6 +371,9 @@ class Tr:
         if isinstance(it, ast.Call):
             f = it.func
             fname = f.id if isinstance(f, ast.Name) else (f.attr if isinstance(f, ast.Attribute) else None)
+            if fname == 'enumerate' and isinstance(f, ast.Name) and len(it.args) == 1 and not it.keywords:
+                e1, t1 = self.E(it.args[0], env)
+                return e1, f'(enumerate_ {t1})'
             if fname == 'range' and isinstance(f, ast.Name) and len(it.args) == 1 and not it.keywords:
                 e1, t1 = self.E(it.args[0], env)
                 return e1, f'(zrange (of_int 0) {t1})'
@@ -490,7 +496,7 @@ class Tr:
             coq, monadic, needs_c = f'src_{name}', True, True
             params = [p for p, _ in sig]
             types = [t for _, t in sig]
-            d = self.defs[name]
+            d = self.defs.get(name) or self.api_defs[name]
             pos = [a.arg for a in d.args.args if a.arg != 'self']
             defaults = dict(zip(pos[len(pos) - len(d.args.defaults):], d.args.defaults))
         else:
@@ -616,7 +622,7 @@ class Tr:
             f = v.func
             if isinstance(f, ast.Name) and f.id == 'print':
                 return self.T(rest, env, tail)
-            if isinstance(f, ast.Attribute) and isinstance(f.value, ast.Name) and f.value.id == 'self':
+            if isinstance(f, ast.Attribute) and isinstance(f.value, ast.Name) and f.value.id in RECEIVERS:
                 effs, term, monadic = self.self_call(f.attr, v, env)
                 if not monadic:
                     raise Unsupported('pure call as a statement')
@@ -747,7 +753,9 @@ class Tr:
             raise Unsupported('for-else')
         single = isinstance(s.target, ast.Name)
         ei, ti = self.E_iter(s.iter, env, single)
-        assigned = sorted({n.id for b in s.body for n in ast.walk(b) if isinstance(n, ast.Name) and isinstance(n.ctx, ast.Store)})
+        skipped = {t.id for b in s.body for st in ast.walk(b) if isinstance(st, (ast.Assign, ast.AugAssign)) and any(h(st) for h in STMT_SKIP)
+                   for t in ast.walk(st) if isinstance(t, ast.Name) and isinstance(t.ctx, ast.Store)}
+        assigned = sorted({n.id for b in s.body for n in ast.walk(b) if isinstance(n, ast.Name) and isinstance(n.ctx, ast.Store)} - skipped)
         mutated = {n.func.value.id for b in s.body for n in ast.walk(b)
                    if isinstance(n, ast.Call) and isinstance(n.func, ast.Attribute) and isinstance(n.func.value, ast.Name)
                    and n.func.attr in ('append', 'extend') and n.func.value.id != 'self'}
@@ -763,7 +771,7 @@ class Tr:
         carried = [a for a in assigned if a not in targets and a in before]
         has_break = any(isinstance(st, ast.Break) for st in ast.walk(ast.Module(body=s.body, type_ignores=[])))
         names = [cname(a) for a in carried] + (['brk__'] if has_break else [])
-        cpat = 'tt' if not names else ("'(" + ', '.join(names) + ')' if len(names) > 1 else names[0])
+        cpat = '_' if not names else ("'(" + ', '.join(names) + ')' if len(names) > 1 else names[0])
         cval = 'tt' if not names else ('(' + ', '.join(names) + ')' if len(names) > 1 else names[0])
         for st in ast.walk(ast.Module(body=s.body, type_ignores=[])):
             if isinstance(st, (ast.Return, ast.Continue)) or (isinstance(st, ast.For) and has_break):
@@ -787,6 +795,14 @@ class Tr:
     def T_With(self, s, rest, env, tail):
         if dump(s) == HEADER_WITH:
             return f'extend_header (lower (cfg_laser c)) ;;; {self.T(rest, env, tail)}'
+        if len(s.items) == 1 and s.items[0].optional_vars is None and isinstance(s.items[0].context_expr, ast.Call):
+            call = s.items[0].context_expr
+            f = call.func
+            if (isinstance(f, ast.Attribute) and isinstance(f.value, ast.Name) and f.value.id in RECEIVERS
+                    and f.attr in METHODS and METHODS[f.attr][0] == 'ctx'):
+                effs, term, _ = self.self_call(f.attr, call, env)
+                body = self.T(list(s.body), env, 'ret tt')
+                return self.wrap(effs, f'{term[:-1]} ({body})) ;;; {self.T(rest, env, tail)}')
         raise Unsupported('with statement')
 
     def T_Try(self, s, rest, env, tail):
@@ -808,11 +824,13 @@ class Tr:
         if d is None:
             raise Unsupported(f'method {name} not found')
         decos = [dump(x) for x in d.decorator_list]
-        want = {'property': ["Name(id='property')"], 'method': [], 'generator': [],
+        want = {'property': ["Name(id='property')"], 'method': [], 'generator': [], 'withbody': [],
                 'ctx': ["Attribute(value=Name(id='contextlib'), attr='contextmanager')"]}[kind]
         if decos != want:
             raise Unsupported(f'decorators of {name}: {decos}')
         pos = [a.arg for a in d.args.args if a.arg != 'self' and a.arg not in IGNORED_PARAMS.get(name, ())]
+        if kind == 'withbody':
+            pos = [p for p, _ in sig]      # the body reads self.<attr>, given as parameters; pgm(verbose) itself is not translated
         if d.args.vararg or d.args.kwarg or d.args.kwonlyargs or pos != [p for p, _ in sig]:
             raise Unsupported(f'signature of {name}: {pos}')
         env = Env(name)
@@ -822,7 +840,15 @@ class Tr:
         for n in ast.walk(d):
             if isinstance(n, ast.Name) and isinstance(n.ctx, ast.Store):
                 env.defined.add(n.id)
-        body = self.T(list(d.body), env, 'ret tt')
+        stmts = list(d.body)
+        if kind == 'withbody':
+            ws = [st for st in d.body if isinstance(st, ast.With) and len(st.items) == 1
+                  and dump(st.items[0].context_expr).startswith("Call(func=Name(id='PGMCompiler'), args=[], keywords=[keyword(value=Name(id='_")
+                  and isinstance(st.items[0].optional_vars, ast.Name) and st.items[0].optional_vars.id == 'G']
+            if len(ws) != 1:
+                raise Unsupported(f'{name}: expected exactly one `with PGMCompiler(**param) as G:` statement')
+            stmts = list(ws[0].body)
+        body = self.T(stmts, env, 'ret tt')
         params = ''.join(f' ({cname(p)} : {t})' for p, t in sig)
         if kind == 'ctx':
             params += ' (body__ : MP unit)'
@@ -913,6 +939,38 @@ PURE_SPECS.append(
          expr_hooks=[_h_is_empty, _h_inset, _h_hatch, _h_size, _h_contour], stmt_skip=[_skip_lengths], imports='TrState', femto_imports=' Trench.Toolpath'))
 
 
+# ---- WaveguideWriter.pgm / MarkerWriter.pgm: the program written inside `with PGMCompiler(**param) as G:`
+def _w_objlist(tr, e, env):
+    d = dump(e)
+    if d == "Attribute(value=Name(id='self'), attr='obj_list')" or d == "Call(func=Name(id='flatten'), args=[Attribute(value=Name(id='self'), attr='obj_list')], keywords=[])":
+        return [], 'obj_list'
+    m = re.fullmatch(r"Call\(func=Name\(id='listcast'\), args=\[Name\(id='(\w+)'\)\], keywords=\[\]\)", d)
+    if m:        # a group is a list of waveguides in the model (a bare waveguide is a one-element group)
+        return [], cname(m.group(1))
+    m = re.fullmatch(r"Attribute\(value=Subscript\(value=Call\(func=Name\(id='listcast'\), args=\[Name\(id='(\w+)'\)\], keywords=\[\]\), "
+                     r"slice=Constant\(value=0\)\), attr='scan'\)", d)
+    if m:        # listcast(bunch)[0].scan: IndexError on an empty group
+        v = env.fresh('scan0')
+        g = cname(m.group(1))
+        return [(v, f'(match {g} with [] => raise EIndex | x0__ :: _ => ret (w_scan x0__) end)')], v
+    m = re.fullmatch(r"Attribute\(value=Name\(id='(\w+)'\), attr='(scan|points)'\)", d)
+    if m and m.group(1) not in ('self', 'G'):
+        return [], (f'(w_scan {cname(m.group(1))})' if m.group(2) == 'scan' else f'(cols (w_pts {cname(m.group(1))}))')
+    if isinstance(e, ast.JoinedStr):      # the text of a comment: only whether it is empty matters
+        lits = ''.join(v.value for v in e.values if isinstance(v, ast.Constant))
+        return [], cstr(lits)
+
+
+def _skip_fabtime(st):
+    return isinstance(st, ast.AugAssign) and isinstance(st.target, ast.Name) and re.fullmatch(r'_\w+_fab_time', st.target.id) is not None
+
+
+WRITER_SPEC = dict(out='SrcWr.v', imports='PureState LineTok PgmSrc PgmEquiv', femto_imports=' Pgm.Ops Writers.Writers', cfg_type='pcfg',
+                   cfg_attrs=set(), local_elt={}, expr_hooks=[_w_objlist], stmt_skip=[_skip_fabtime],
+                   parts=[('WaveguideWriter', 'pgm', 'wg_body', [('obj_list', 'list (list wobj)')]),
+                          ('MarkerWriter', 'pgm', 'mk_body', [('obj_list', 'list wobj')])])
+
+
 PURE_PREAMBLE = '''(* GENERATED by harness/py2coq.py from src/femto/%s -- do not edit.
    Small pure methods (point count, Nasu pass order, number of wall passes, adjusted bridge); PureEquiv.v relates them to
    Path/Sampling.v, Writers/Writers.v, Trench/TreeProofs.v. *)
@@ -949,6 +1007,33 @@ def translate_pure(src_dir: str, spec: dict) -> str:
     return ''.join(out)
 
 
+def translate_writers(src_dir: str) -> str:
+    global METHODS, CFG_ATTRS, STATE_ATTRS, ORACLES, CFG_TYPE, LOCAL_ELT, EXTRA_PARAMS, MONAD, EXPR_HOOKS, STMT_SKIP, RECEIVERS
+    saved = (METHODS, CFG_ATTRS, STATE_ATTRS, ORACLES, CFG_TYPE, LOCAL_ELT, EXTRA_PARAMS, MONAD, EXPR_HOOKS, STMT_SKIP, RECEIVERS)
+    spec = WRITER_SPEC
+    out = [PURE_PREAMBLE % ('writer.py', spec['femto_imports'], spec['imports'])]
+    try:
+        api = [n for n in ast.parse(pathlib.Path(src_dir, 'pgmcompiler.py').read_text()).body
+               if isinstance(n, ast.ClassDef) and n.name == 'PGMCompiler'][0]
+        mod = ast.parse(pathlib.Path(src_dir, 'writer.py').read_text())
+        pgm_methods = dict(METHODS)
+        for cls_name, meth, gen_name, sig in spec['parts']:
+            cls = [n for n in mod.body if isinstance(n, ast.ClassDef) and n.name == cls_name]
+            if len(cls) != 1:
+                raise Unsupported(f'class {cls_name} not found in writer.py')
+            METHODS = dict(pgm_methods)
+            METHODS[meth] = ('withbody', sig, 'unit')
+            CFG_ATTRS, STATE_ATTRS, ORACLES = spec['cfg_attrs'], {}, {}
+            CFG_TYPE, LOCAL_ELT, EXTRA_PARAMS, MONAD = spec['cfg_type'], spec['local_elt'], '', 'MP'
+            EXPR_HOOKS, STMT_SKIP, RECEIVERS = spec['expr_hooks'], spec['stmt_skip'], {'G'}
+            tr = Tr(cls[0], api)
+            out.append(tr.method(meth).replace(f'Definition src_{meth} ', f'Definition src_{gen_name} ', 1))
+            out.append('\n')
+    finally:
+        METHODS, CFG_ATTRS, STATE_ATTRS, ORACLES, CFG_TYPE, LOCAL_ELT, EXTRA_PARAMS, MONAD, EXPR_HOOKS, STMT_SKIP, RECEIVERS = saved
+    return ''.join(out)
+
+
 def main(argv):
     """py2coq.py <dir of femto sources> <output dir> <group>...   groups: pgm (PgmSrc.v), SrcLp.v, SrcNw.v, SrcTc.v, SrcTr.v"""
     if len(argv) < 3:
@@ -959,6 +1044,8 @@ def main(argv):
         try:
             if g == 'pgm':
                 name, text = 'PgmSrc.v', translate(str(src_dir / 'pgmcompiler.py'))
+            elif g == 'SrcWr.v':
+                name, text = g, translate_writers(str(src_dir))
             else:
                 spec = [sp for sp in PURE_SPECS if sp['out'] == g][0]
                 name, text = g, translate_pure(str(src_dir), spec)
